@@ -1049,7 +1049,7 @@ func c02Writer(c *fw.Ctx) fw.Outcome {
 }
 
 func init() {
-	n := func(tier string) int64 { return tierN(tier, 4000, 60000) }
+	n := func(tier string) int64 { return tierN(tier, 4000, 300000) }
 	fw.Register(&fw.Property{
 		ID:    "C02",
 		Level: "exploration",
